@@ -124,6 +124,12 @@ func glueCheck(body []byte, lst int, lout []byte, choice *model.DecisionMakerCho
 		}
 		glue.encoded++
 	}
+	// the request the library works on is the request the client wrote (decoding may not drop or alter members)
+	if glue.first == nil {
+		if d := decodedFaithfully(body); d != "" {
+			glue.first = &glueMismatch{Body: string(body), Handler: "(request decoding)", Library: "the decoded request differs from the JSON text: " + d}
+		}
+	}
 	// the same number spelt differently (3 / 3.0 / 3e0) is the same request
 	if glue.first == nil && glue.compared%7 == 0 {
 		if alt := respellNumbers(body); alt != nil {
@@ -301,4 +307,133 @@ func serveStdio() int {
 			return 0
 		}
 	}
+}
+
+// ---------- concurrency sweep (race build) ----------
+// `harness racesweep <prop> <seed> <n> <dir>`: whole requests of the property's own methods / biases, answered by the
+// real handler one at a time and then by 8 goroutines at once (three rounds, each goroutine walking the list from
+// another offset).  Every concurrent answer must be the sequential one; the binary is built with -race, so a data
+// race on state shared between requests is reported by the runtime (bin/check turns the report into a violation).
+func raceSweep(prop string, seed int64, n int, dir string) int {
+	glue.off = true
+	o := newOut(dir)
+	o.dir = dir
+	o.watchdog(300, seed)
+	r := newRng(seed*7919 + 13)
+	sw := glueSweeps[prop]
+	var bodies [][]byte
+	var reqs []J
+	for i := 0; i < n; i++ {
+		q := genRequest(r, ReqOpts{Methods: sw.methods, Biases: sw.biases, MaxBiases: 3, Prob: ProbOpts{MaxAlt: 10, MaxCrit: 6}})
+		bodies = append(bodies, q.JSON())
+		reqs = append(reqs, q.Body)
+	}
+	type ans struct {
+		st  int
+		out string
+	}
+	canon := func(st int, out []byte) ans {
+		if st == 200 {
+			return ans{st, string(out)}
+		}
+		return ans{st, ""} // rejected: the wording may list map keys in any order
+	}
+	seq := make([]ans, n)
+	for i, b := range bodies {
+		st, out := handlerJSONDirect(b)
+		seq[i] = canon(st, out)
+	}
+	o.count("racesweep:requests=" + itoa(n))
+	const k = 8
+	firstBad := -1
+	var bad ans
+	var mu sync.Mutex
+	for round := 0; round < 3 && firstBad < 0; round++ {
+		var wg sync.WaitGroup
+		for w := 0; w < k; w++ {
+			wg.Add(1)
+			go func(w int) {
+				defer wg.Done()
+				for j := 0; j < n; j++ {
+					i := (j + w*n/k + round) % n
+					st, out := handlerJSONDirect(bodies[i])
+					if a := canon(st, out); a != seq[i] {
+						mu.Lock()
+						if firstBad < 0 {
+							firstBad, bad = i, a
+						}
+						mu.Unlock()
+						return
+					}
+				}
+			}(w)
+		}
+		wg.Wait()
+	}
+	m := Meta{Stage: "concurrent-equals-sequential", Key: "racesweep", Input: J{"requests": n, "goroutines": k}}
+	if firstBad >= 0 {
+		m.Input = J{"request": reqs[firstBad], "goroutines": k}
+		m.GoOut = J{"alone": truncate(fmt.Sprintf("%d %s", seq[firstBad].st, seq[firstBad].out), 1500), "next_to_other_requests": truncate(fmt.Sprintf("%d %s", bad.st, bad.out), 1500)}
+	}
+	o.Oracle(m, firstBad < 0, "a request answered next to other requests gets a different answer than alone")
+	o.close(dir)
+	return 0
+}
+
+// decodedFaithfully compares the DecisionMaker that encoding/json builds from a body with the body itself:
+// criteria (id, type, declared valuesRange), known alternatives (id, values), choseToMake.  "" = same.
+func decodedFaithfully(body []byte) string {
+	var raw struct {
+		Criteria []struct {
+			Id          *string `json:"id"`
+			Type        *string `json:"type"`
+			ValuesRange *struct {
+				Min *float64 `json:"min"`
+				Max *float64 `json:"max"`
+			} `json:"valuesRange"`
+		} `json:"criteria"`
+		KnownAlternatives []struct {
+			Id       string             `json:"id"`
+			Criteria map[string]float64 `json:"criteria"`
+		} `json:"knownAlternatives"`
+		ChoseToMake []string `json:"choseToMake"`
+	}
+	var dm model.DecisionMaker
+	if json.Unmarshal(body, &raw) != nil || json.Unmarshal(body, &dm) != nil {
+		return "" // not a well-typed request: nothing to compare
+	}
+	if len(raw.Criteria) != len(dm.Criteria) || len(raw.KnownAlternatives) != len(dm.KnownAlternatives) || len(raw.ChoseToMake) != len(dm.ChoseToMake) {
+		return "number of criteria / alternatives / chosen ids"
+	}
+	for i, c := range raw.Criteria {
+		d := dm.Criteria[i]
+		if c.Id != nil && *c.Id != d.Id {
+			return fmt.Sprintf("criteria[%d].id %q decoded as %q", i, *c.Id, d.Id)
+		}
+		if c.Type != nil && *c.Type != string(d.Type) {
+			return fmt.Sprintf("criteria[%d].type %q decoded as %q", i, *c.Type, d.Type)
+		}
+		if c.ValuesRange != nil && c.ValuesRange.Min != nil && c.ValuesRange.Max != nil {
+			if d.ValuesRange == nil || d.ValuesRange.Min != *c.ValuesRange.Min || d.ValuesRange.Max != *c.ValuesRange.Max {
+				return fmt.Sprintf("criteria[%d] (%s): the declared valuesRange is lost or altered", i, d.Id)
+			}
+		}
+	}
+	for i, a := range raw.KnownAlternatives {
+		d := dm.KnownAlternatives[i]
+		if a.Id != d.Id || len(a.Criteria) != len(d.Criteria) {
+			return fmt.Sprintf("knownAlternatives[%d]", i)
+		}
+		for k, v := range a.Criteria {
+			if w, ok := d.Criteria[k]; !ok || w != v {
+				return fmt.Sprintf("knownAlternatives[%d].criteria[%q]", i, k)
+			}
+		}
+	}
+	for i, id := range raw.ChoseToMake {
+		if dm.ChoseToMake[i] != id {
+			return fmt.Sprintf("choseToMake[%d]", i)
+		}
+	}
+	return ""
 }
